@@ -1,5 +1,5 @@
 From Verif Require Import Lib.Sx Model.RtmpPacket.
 Require Extraction.
-Require Import ExtrOcamlBasic ExtrOcamlString.
+Require Import ExtrOcamlBasic.
 Definition run := run_c03.
 Extraction "model.ml" run.
